@@ -18,6 +18,7 @@ func checkC01(c *Check) {
 		return
 	}
 	p := c.P
+	mapContract(c)
 	// 1. who may write identity
 	var names []string
 	for f := range t.BindFns {
